@@ -18,9 +18,11 @@
 #include <fstream>
 #include <map>
 #include <memory>
+#include <new>
 #include <netinet/in.h>
 #include <set>
 #include <sys/ioctl.h>
+#include <sys/resource.h>
 #include <sys/socket.h>
 #include <sys/time.h>
 #include <nlohmann/json.hpp>
@@ -39,10 +41,23 @@ static int g_srv[4];                 // server sockets 1..3
 static std::string g_srv_ip[4];
 static const int kMaxLogged = 40;    // cap of logged list lengths (the real counts are logged too)
 
-static void on_vtalarm(int) { vh::fault("hang", "a single step used more than 30 s of CPU time"); }
+// Non-termination watchdog: CPU time (not wall clock, so machine load cannot trip it) of ONE step; a step normally needs
+// microseconds.  VERIF_STEP_CPU_S overrides the limit (the check raises it for the valgrind run, where the first steps
+// include the translation of the code).  Memory growth of a spinning decoder is capped as well (see cap_memory()).
+static int g_step_cpu_s = 3;
+static void on_vtalarm(int) { vh::fault("hang", "a single step exceeded its CPU-time limit (does not terminate)"); }
 static void arm_watchdog() {
-    struct itimerval it; memset(&it, 0, sizeof it); it.it_value.tv_sec = 30;
+    struct itimerval it; memset(&it, 0, sizeof it); it.it_value.tv_sec = g_step_cpu_s;
     setitimer(ITIMER_VIRTUAL, &it, nullptr);
+}
+static void on_new_failure() { vh::fault("memory", "allocation failed: memory grows without bound"); }
+static void cap_memory() {
+    std::set_new_handler(on_new_failure);
+#if !defined(__SANITIZE_ADDRESS__)
+    // plain build: 3 GiB of address space (not under valgrind, which needs its own; not under ASan, whose shadow is huge -
+    // there ASAN_OPTIONS hard_rss_limit_mb / max_allocation_size_mb set by the check do the same job)
+    if (!getenv("VERIF_NO_RLIMIT")) { struct rlimit rl; rl.rlim_cur = rl.rlim_max = 3ull << 30; setrlimit(RLIMIT_AS, &rl); }
+#endif
 }
 
 static void bind_servers() {
@@ -268,6 +283,8 @@ int main(int argc, char **argv) {
     vh::T().open(argv[3]);
     vh::install_faults();
     struct sigaction sa; memset(&sa, 0, sizeof sa); sa.sa_handler = on_vtalarm; sa.sa_flags = SA_ONSTACK; sigaction(SIGVTALRM, &sa, nullptr);
+    if (const char *e = getenv("VERIF_STEP_CPU_S")) g_step_cpu_s = std::max(1, atoi(e));
+    cap_memory();
     tbox::verif::Hooks().steady_ms = vclock;
     bind_servers();
     std::ifstream in(argv[2]);
